@@ -45,7 +45,7 @@ def plan(seed, tier):
                 "world": GEN_WORLD,
                 "fn": "gen_programs",
                 "payload": {"seed": "%s/gen/%d" % (seed, g), "count": nprog // ngen, "tier": tier, "corpus": g < (2 if tier == "quick" else 16)},
-                "timeout": 300,
+                "timeout": 900,
             }
         )
     return jobs
@@ -81,7 +81,7 @@ def post_plan(seed, tier, jobs, results):
                             "max_k": 40 if tier == "quick" else 400,
                             "seed": "%s/p%d" % (seed, pid),
                         },
-                        "timeout": 240,
+                        "timeout": 900,
                     }
                 )
     # heavy (enumerating) jobs first
